@@ -326,7 +326,9 @@ def _order_independence(rng, tier, rpt):
             for j, (n, o) in enumerate(zip(hs, out)):
                 if o != ref[n] and n not in seen:
                     seen.add(n)
-                    small = minimise(hs, j) if kind.startswith("after") else hs
+                    if len(seen) > 6:
+                        continue
+                    small = minimise(hs, j) if kind.startswith("after") and len(seen) <= 2 else hs[:j + 1]
                     bad.append({"property": "C15", "entry_point": n, "request_lines": [], "catalogue_history": small,
                                 "replay_cmd": "cd /verif && PYTHONPATH=/verif:/repo /venv/bin/python -m harness.c15_catalogue '%s'" % json.dumps(small),
                                 "relation": "catalogue entry %s gives a different result %s than as the first call of a fresh interpreter" % (n, kind),
